@@ -9,6 +9,7 @@ package mcp
 import (
 	"context"
 	"encoding/json"
+	"fmt"
 	"net/http"
 	"strings"
 
@@ -59,7 +60,7 @@ func (r *jsonResponder) respond(ctx context.Context, w http.ResponseWriter, req 
 	// Encode first: once the 200 is written a failure could only leave an empty body behind.
 	data, err := json.Marshal(resp)
 	if err != nil {
-		return err
+		return fmt.Errorf("%w: %v", ErrResponseSerialization, err)
 	}
 	w.WriteHeader(http.StatusOK)
 	_, err = w.Write(append(data, '\n'))
